@@ -1011,6 +1011,12 @@ class CoherenceEngine(Engine):
             # modules whose dotted names merely start with a package's name
             if rng.random() < 0.7 and "pkg_tools.py" not in have:
                 init.append({"p": "pkg_tools.py", "text": "def tool():\n    return 1\n\n\nTOOLS = 2\n", "nl": "lf", "enc": "utf-8"})
+            if rng.random() < 0.5 and "sub_a" not in have and "subxa" not in have:
+                # ... and package names that differ only where one has an underscore
+                for pk, mod, fn in (("sub_a", "one", "first"), ("subxa", "two", "second")):
+                    init.append({"p": pk, "dir": True})
+                    init.append({"p": pk + "/__init__.py", "text": "", "nl": "lf", "enc": "utf-8"})
+                    init.append({"p": pk + "/" + mod + ".py", "text": "def %s():\n    return 1\n" % fn, "nl": "lf", "enc": "utf-8"})
             if rng.random() < 0.5 and "pkgs" not in have:
                 init.append({"p": "pkgs", "dir": True})
                 init.append({"p": "pkgs/__init__.py", "text": "", "nl": "lf", "enc": "utf-8"})
